@@ -308,6 +308,63 @@ func streamFacts(s *src, f *facts) {
 		abortOK = abortOK && ok
 	}
 	f.b("stAbortClosesDone", abortOK, s.pos(dec))
+	// decodeDone is closed exactly once on every way out of the decoder goroutine (a second close
+	// panics in a goroutine nobody recovers): either one deferred close and no other, or one close
+	// in front of each exit and none elsewhere; and nobody else closes it
+	isClose := func(c *ast.CallExpr) bool { return s.str(c.Fun) == "close" && len(c.Args) == 1 && s.str(c.Args[0]) == "decodeDone" }
+	once := false
+	if dec != nil {
+		deferred, explicit := 0, 0
+		for _, d := range all[*ast.DeferStmt](dec, nil) {
+			deferred += len(all(d, isClose))
+		}
+		closes := all(dec, isClose)
+		explicit = len(closes) - deferred
+		exits := 0
+		for _, r := range all[*ast.ReturnStmt](dec, nil) {
+			if enclosing[*ast.DeferStmt](dec, r) == nil {
+				exits++
+			}
+		}
+		for _, b := range all(dec, func(b *ast.BranchStmt) bool { return b.Tok.String() == "break" }) {
+			// a break directly inside a select/switch arm leaves only that statement
+			if enclosing[*ast.CommClause](dec, b) == nil && enclosing[*ast.CaseClause](dec, b) == nil {
+				exits++
+			}
+		}
+		switch {
+		case deferred == 1 && explicit == 0:
+			once = true
+		case deferred == 0 && explicit > 0 && explicit == exits:
+			once = true
+			for _, c := range closes {
+				// the statement list that holds the close ends by leaving, and holds no second close
+				var list []ast.Stmt
+				if cc := enclosing[*ast.CommClause](dec, c); cc != nil && (enclosing[*ast.BlockStmt](cc, c) == nil) {
+					list = cc.Body
+				} else if b := enclosing[*ast.BlockStmt](dec, c); b != nil {
+					list = b.List
+				}
+				n, leaves := 0, false
+				for _, st := range list {
+					n += len(all(st, isClose))
+				}
+				if len(list) > 0 {
+					switch l := list[len(list)-1].(type) {
+					case *ast.ReturnStmt:
+						leaves = true
+					case *ast.BranchStmt:
+						leaves = l.Tok.String() == "break"
+					}
+				}
+				once = once && n == 1 && leaves
+			}
+		}
+		if lb != nil {
+			once = once && len(all(lb, isClose)) == len(closes)
+		}
+	}
+	f.b("stDoneClosedOncePerExit", once, s.pos(dec))
 	f.b("stDecoderExitsOnErr", exits, s.pos(dec))
 	// LinkMessage(ctx, writeReq, writeRes, readReq, readRes, …)
 	call := first(s.callsTo(lb, "LinkMessage"))
